@@ -183,6 +183,10 @@ class EventManager(Runnable):
         except CloudCursorError as e:
             log.exception("Cursor error... resetting cursor. %s", e)
             self.provider.current_cursor = self.provider.latest_cursor
+            if self._walk_tag is not None:
+                # the walk that stands in for the lost events has to survive a restart: forget the walk marker
+                # before the fresh cursor is stored
+                self.state.storage_delete_tag(self._walk_tag)
             self._save_current_cursor()
             self.need_walk = True
             self.backoff()
